@@ -1044,7 +1044,11 @@ def check_yybar(optic, tr, cfg, rnd):
                 yy, _ = p._trace_generic(0.0, float(np.ravel(u0)[0]), z, w)
             return arr(yy)
         yw = guard(at_w)
-        if not iserr(yw) and len(yw) == len(ya) and np.all(np.isfinite(yw)) and \
+        # the chief-ray abscissae at w depend on how the chief ray is re-aimed at w (not fixed by the property)
+        mask = np.array([True, True, False, False] * (len(spec) // 4))
+        if iserr(yw) or len(yw) != len(ya) or not np.all(np.isfinite(yw)):
+            ck.count('wavelength != primary, marginal ray not finite (degenerate lens)')
+        elif not iserr(yw) and len(yw) == len(ya) and np.all(np.isfinite(yw)) and \
                 np.max(np.abs(yw - ya)) <= 1e-7 * max(1.0, np.max(np.abs(ya))):
             # the marginal heights do not depend on the wavelength here (e.g. the only dispersive element is a
             # plane-parallel plate) but the chief ray at w may: its abscissae are not fixed by the property
